@@ -356,7 +356,7 @@ def main():
     nsys = checked = ind = muts = 0
     for it, (st, val) in list(zip(items, results)) + list(zip(num_items, results2)):
         if st != "ok":
-            run.inconc(f"{it['name']}: job {st} {str(val)[:200] if val else ''}")
+            run.job_failed(it['name'], st, val)
             continue
         run.add_stats(val["stats"])
         for r in val["refusals"]:
